@@ -558,7 +558,7 @@ package originium
 //@ func (*originium.memtable).recover -> r
 //@ props C14 C03
 //@ requires mt != nil && mt.wal != nil && walOK(mt.wal)
-//@ thin ^assert|^loop1|^pre\..*wal\.WAL_?\)?\.Write|^pre\..*Delete
+//@ thin ^assert|^loop[12]|^pre\..*wal\.WAL_?\)?\.Write|^pre\..*Delete
 //@ assigns everything
 //@ after_call (*wal.WAL).Read#0: ghost RecN = 0
 //@ after_call (*wal.WAL).Write#0: ghost RecN = RecN + 1
